@@ -18,6 +18,10 @@ Expressions are the shared `QV.Expr K`; the model never computes with numbers, s
 -/
 namespace QV.C20
 
+-- structural equality of expressions is decidable when it is on the numeric leaves (the driver's
+-- leaves are bit patterns)
+deriving instance DecidableEq for QV.Expr
+
 /-- `Qubit` (instruction/qubit.rs:21); a placeholder is numbered by the harness. -/
 inductive Qubit where
   | fixed (n : Nat)
@@ -36,26 +40,26 @@ structure Gate (K : Type) where
   params : List (Expr K)
   qubits : List Qubit
   mods : List Modifier
-  deriving Repr, Inhabited
+  deriving DecidableEq, Repr, Inhabited
 
 /-- A body instruction: a gate application or anything else (opaque). -/
 inductive Instr (K : Type) where
   | gate (g : Gate K)
   | other (k : Nat)
-  deriving Repr, Inhabited
+  deriving DecidableEq, Repr, Inhabited
 
 /-- `GateSpecification`: `Sequence(DefGateSequence { qubits, gates })` or any of Matrix/Permutation/PauliSum. -/
 inductive Spec (K : Type) where
   | seq (qvars : List String) (gates : List (Gate K))
   | other
-  deriving Repr, Inhabited
+  deriving DecidableEq, Repr, Inhabited
 
 /-- `GateDefinition` (instruction/gate.rs:1024). -/
 structure Def (K : Type) where
   name : String
   params : List String
   spec : Spec K
-  deriving Repr, Inhabited
+  deriving DecidableEq, Repr, Inhabited
 
 /-- `DefGateSequenceExpansionError` (instruction/gate_sequence.rs:12), payloads included. -/
 inductive Err where
@@ -74,7 +78,7 @@ inductive Outcome (α : Type) where
   | ok (a : α)
   | err (e : Err)
   | outOfFuel
-  deriving Repr, Inhabited
+  deriving DecidableEq, Repr, Inhabited
 
 variable {K : Type}
 
